@@ -26,17 +26,18 @@ type PlanStep struct {
 
 // Cfg mirrors the cfg record of QueryLifecycle.tla.
 type Cfg struct {
-	Scn      string     `json:"scn"` // select | insert | stream
-	NeedInfo bool       `json:"needInfo"`
-	Ext      bool       `json:"ext"`
-	ExtBlank bool       `json:"extBlank"` // external data without a table name of the caller's (the library's default name applies)
-	Script   []Item     `json:"script"`
-	Plan     []PlanStep `json:"plan"`
-	Present  []string   `json:"present"`
-	Rfail    int        `json:"rfail"`
-	Rcancel  int        `json:"rcancel"`
-	InitRows int        `json:"initRows"`
-	Wbreak   int        `json:"wbreak"` // filled in after the run from what was observed
+	Scn        string     `json:"scn"` // select | insert | stream
+	NeedInfo   bool       `json:"needInfo"`
+	Ext        bool       `json:"ext"`
+	ExtBlank   bool       `json:"extBlank"` // external data without a table name of the caller's (the library's default name applies)
+	Script     []Item     `json:"script"`
+	Plan       []PlanStep `json:"plan"`
+	Present    []string   `json:"present"`
+	Rfail      int        `json:"rfail"`
+	Rcancel    int        `json:"rcancel"`
+	InitRows   int        `json:"initRows"`
+	Wbreak     int        `json:"wbreak"`     // filled in after the run from what was observed
+	CloseFails bool       `json:"closeFails"` // set by the harness in the Begin line: the connection's Close reports an error (Scenario.CloseErr)
 }
 
 // Scenario is one run: the abstract configuration plus its concrete refinement and the schedule.
@@ -56,6 +57,8 @@ type Scenario struct {
 	RowsPer int `json:"rowsPer,omitempty"`
 	// BreakBytes is how many bytes of the packet the connection takes when it breaks under a blocked write (letter B)
 	BreakBytes int `json:"breakBytes,omitempty"`
+	// CloseErr: the connection's Close closes it and reports an error all the same
+	CloseErr bool `json:"closeErr,omitempty"`
 	// DrainBreak: when nothing else can move and the sender sits in a blocked write, the connection breaks (letter B)
 	DrainBreak bool `json:"drainBreak,omitempty"`
 
@@ -152,6 +155,7 @@ type runner struct {
 	free   bool // free-running: no gates, no hooks
 	// the sender's last recorded move ended in a write the peer does not take
 	sInWrite bool
+	expireW  bool // the write deadline of the blocked write is to pass at the sender's next step
 	brokeW   bool // the environment broke the connection under the sender's blocked write (schedule letter B)
 
 	// executor-side bookkeeping
@@ -361,7 +365,12 @@ func (r *runner) fillRows() {
 			v = z ^ (z >> 31)
 		}
 		r.colV.Append(v)
-		r.colS.Append(fmt.Sprintf("v%d-%d", r.ver, i))
+		str := fmt.Sprintf("v%d-%d", r.ver, i)
+		if n == 17 && i%5 == 0 {
+			// long values among short ones (4 KiB .. 70 KiB: a column may treat them differently)
+			str = strings.Repeat("L", []int{4096, 5000, 70000, 4095}[(r.ver+i/5)%4]) + str
+		}
+		r.colS.Append(str)
 		r.colE.Append(EnumNames[(r.ver+i)%len(EnumNames)])
 	}
 }
@@ -573,6 +582,10 @@ func (r *runner) moveRole(role string) bool {
 			if !r.conn.Snap().Closed && !r.brokeW {
 				return false // still in the write, and nothing has happened that ends it
 			}
+			if r.expireW {
+				r.expireW = false
+				r.conn.ExpireWriteDeadline()
+			}
 			r.conn.ResumeWrite()
 		}
 		r.sInWrite = false
@@ -766,8 +779,10 @@ func (r *runner) moveCancel(how string) bool {
 	}
 	r.emit(Event{"ev": "Env", "a": how})
 	r.caller.fire(err)
-	if how == "D" && r.sInWrite && r.park["S"] == nil && r.conn.ExpireWriteDeadline() {
-		r.brokeW = true // the sender's blocked write carries the deadline of the context: it ends with it
+	if how == "D" && r.sInWrite && r.park["S"] == nil && r.conn.HasWriteDeadline() {
+		// the sender's blocked write carries the deadline of the context and ends with it - at the sender's next step (the
+		// deadline is let pass only then: a write that returned by itself would act before the schedule says so)
+		r.brokeW, r.expireW = true, true
 	}
 	if !r.spinFor(r.gctxDead) {
 		r.stuck = "group context not cancelled after the caller's context"
@@ -866,6 +881,7 @@ func Run(sc Scenario) (events []Event, err error) {
 		lastID: map[string]int{}, doneCh: make(chan error, 1)}
 	r.cond = sync.NewCond(&r.mu)
 	r.conn = simconn.New()
+	r.conn.SetCloseError(sc.CloseErr)
 	r.caller = &manualCtx{done: make(chan struct{}), deadline: strings.Contains(sc.Sched, "D")}
 
 	comp := map[string]ch.Compression{"disabled": ch.CompressionDisabled, "none": ch.CompressionNone, "lz4": ch.CompressionLZ4,
@@ -1034,6 +1050,7 @@ func (r *runner) abort() {
 func (r *runner) finish(wbreak int) []Event {
 	cfg := r.sc.Cfg
 	cfg.Wbreak = wbreak
+	cfg.CloseFails = r.sc.CloseErr
 	if cfg.Script == nil {
 		cfg.Script = []Item{}
 	}
@@ -1052,7 +1069,7 @@ func (r *runner) finish(wbreak int) []Event {
 		}
 	}
 	begin := Event{"ev": "Begin", "id": r.sc.ID, "cfg": cfg, "chains": chains, "sched": r.sc.Sched, "rev": r.sc.Rev,
-		"compression": r.sc.Compression, "breakAt": r.sc.BreakAt, "rowsPer": r.sc.RowsPer, "breakBytes": r.sc.BreakBytes, "drainBreak": r.sc.DrainBreak}
+		"compression": r.sc.Compression, "breakAt": r.sc.BreakAt, "rowsPer": r.sc.RowsPer, "breakBytes": r.sc.BreakBytes, "drainBreak": r.sc.DrainBreak, "closeErr": r.sc.CloseErr}
 	return append([]Event{begin}, r.events...)
 }
 
